@@ -461,6 +461,15 @@ func c14GenVx(g *gen) {
 	for i := 0; i < g.budget(4, 100); i++ {
 		toks = append(toks, c14ShowBigs(c14RandVec(g, q, g.rng.intn(80))))
 	}
+	// "the input is zero-padded": a message whose last block is partial, then the same message with the padding zeros written out
+	for _, n := range []int{5, 17, 20, 31, 40} {
+		v := c14RandVec(g, q, n)
+		toks = append(toks, c14ShowBigs(v))
+		for len(v)%16 != 0 {
+			v = append(v, big.NewInt(0))
+		}
+		toks = append(toks, c14ShowBigs(v))
+	}
 	g.emit("C14 vx hash %s %s", p.keys(24, 6, 21), join(toks))
 	// HashPoseidon2x16: 16 rows at once into a destination slice of leaves pre-filled with garbage
 	toks = nil
